@@ -7,41 +7,6 @@ Require Import PyIR.Base.Result PyIR.IW.IW PyIR.IW.IWProps PyIR.IW.Timings PyIR.
 Import ListNotations.
 Open Scope Z_scope.
 
-(* ------------------------------------------------------------------ compress and the trailing gap *)
-Lemma comp_nonempty : forall l cur, comp cur l <> [].
-Proof. induction l as [|x l IH]; intros cur; cbn [comp]; [discriminate|]. destruct (same_sign cur x); [apply IH|discriminate]. Qed.
-
-Lemma comp_app : forall a cur b, comp cur (a ++ b) = removelast (comp cur a) ++ comp (last (comp cur a) 0) b.
-Proof.
-  induction a as [|x a IH]; intros cur b.
-  - reflexivity.
-  - cbn [app]. rewrite !comp_cons. destruct (same_sign cur x); [apply IH|].
-    rewrite IH. pose proof (comp_nonempty a x) as Hne.
-    destruct (comp x a) as [|y r] eqn:E; [congruence|]. reflexivity.
-Qed.
-
-Lemma last_rev_cons (l : list Z) x r d : rev l = x :: r -> last l d = x /\ removelast l = rev r.
-Proof.
-  intros H. assert (l = rev r ++ [x]) as -> by (rewrite <- (rev_involutive l), H; reflexivity).
-  split; [apply last_last|apply List.removelast_last].
-Qed.
-
-(* appending a negative gap to a compressed, non-zero list = compressing the list with the gap appended *)
-Lemma append_gap_compress l g : nonzero l -> g < 0 -> l <> [] -> append_gap (compress l) g = compress (l ++ [g]).
-Proof.
-  intros Hnz Hg Hne. destruct l as [|a l]; [congruence|]. cbn [compress app].
-  rewrite comp_app. unfold append_gap.
-  pose proof (comp_nonempty l a) as Hc.
-  destruct (rev (comp a l)) as [|x r] eqn:Er.
-  { exfalso. apply Hc. rewrite <- (rev_involutive (comp a l)), Er. reflexivity. }
-  destruct (last_rev_cons _ _ _ 0 Er) as [Hl Hr]. rewrite Hl, Hr.
-  cbn [comp]. unfold same_sign.
-  replace (0 <? g) with false by lia. replace (g <? 0) with true by lia. rewrite andb_false_r, andb_true_r. cbn [orb].
-  destruct (x <? 0) eqn:Ex; cbn [andb].
-  - cbn [rev]. reflexivity.
-  - (* p ++ [g] with p = removelast p ++ [last p] *)
-    rewrite (app_removelast_last 0 Hc) at 1. rewrite Hl, Hr. rewrite <- app_assoc. reflexivity.
-Qed.
 
 (* ------------------------------------------------------------------ one bit field through a two-entry table *)
 Definition sel (s0 s1 : list Z) (b : bool) : list Z := if b then s1 else s0.
